@@ -275,10 +275,81 @@ def prov2(P, T, ctx, fuel):
     return ("new", y, at, ("sel", x, l, "self"), prov(P, T, rest + [(y, at)], fuel - 1))
 
 
-def generate(seed, fuel=6, lin=False):
+def drop_server_main(P, names, fuel):
+    """directed shape: a negative server holding several dependencies (some of them negative servers themselves) is spawned by a
+    helper, then dropped / split-and-dropped / split-and-used by its client: exercises the GC cascade and the DUP cascade over free names"""
+    rng = P.rng
+    neg = [n for n in names if not positive(P, n)]
+    if not neg:
+        P.types["TN"] = ("-*", UNIT, UNIT)
+        names.append("TN"); neg = ["TN"]
+    if len(neg) < 2:
+        P.types["TB"] = ("&", [("l0", UNIT), ("l1", neg[0])])
+        names.append("TB"); neg.append("TB")
+    S = rng.choice(neg)
+    deps = []
+    for i in range(rng.randint(2, 3)):
+        t = rng.choice(neg + neg + [UNIT, "N"] + names)
+        deps.append((P.fresh(), t))
+    # the server: waits on its own channel first, uses its dependencies afterwards
+    params = [(P.fresh(), t) for _, t in deps]
+    u = P.unfold(S)
+    P.nfun += 1
+    hname = "srv%d" % P.nfun
+    f = {"name": hname, "params": params, "ret": S, "body": None, "gen": "rand"}
+    P.funcs.append(f)
+    if u[0] == "-*":
+        a, b = P.fresh(), P.fresh()
+        inner = ("recv", a, b, "self", prov(P, u[2], params + [(a, u[1])], fuel))
+    else:
+        inner = ("case", "self", [(l, P.fresh(), prov(P, at, list(params), fuel // 2)) for l, at in u[1]])
+    # some local work before blocking, so that the server owns locally created channels too
+    loc = P.fresh()
+    lt = rng.choice(neg + [UNIT])
+    f["body"] = ("new", loc, None, ("call", fn_mk(P, lt), []), ("print", P.label(), _with_ctx(inner, (loc, lt), P, u, params, fuel)))
+    s = P.fresh()
+    k = rng.randrange(4)
+    if k == 0:
+        tail = ("drop", s, ("print", P.label(), ("close",)))
+    elif k == 1:
+        s1, s2 = P.fresh(), P.fresh()
+        e = P.fresh()
+        tail = ("split", s1, s2, s, ("drop", s1, ("new", e, None, ("call", fn_eat(P, S), [s2]), ("wait", e, ("print", P.label(), ("close",))))))
+    elif k == 2:
+        s1, s2 = P.fresh(), P.fresh()
+        e1, e2 = P.fresh(), P.fresh()
+        tail = ("split", s1, s2, s, ("new", e1, None, ("call", fn_eat(P, S), [s1]), ("new", e2, None, ("call", fn_eat(P, S), [s2]),
+                                     ("wait", e1, ("wait", e2, ("print", P.label(), ("close",)))))))
+    else:
+        h = gen_helper(P, [(P.fresh(), S)], UNIT, 0)
+        # the helper's own body was generated for a fresh parameter id: regenerate it so that it drops its argument
+        hf = next(x for x in P.funcs if x["name"] == h)
+        hf["body"] = ("print", P.label(), ("drop", hf["params"][0][0], ("close",)))
+        e = P.fresh()
+        tail = ("new", e, None, ("call", h, [s]), ("wait", e, ("print", P.label(), ("close",))))
+    body = ("new", s, S if rng.random() < 0.5 else None, ("call", hname, [d for d, _ in deps]), ("print", P.label(), tail))
+    for d, t in reversed(deps):
+        body = ("new", d, None, ("call", fn_mk(P, t), []), body)
+    return body
+
+
+def _with_ctx(inner, extra, P, u, params, fuel):
+    """rebuild the server's blocking form so that the locally created channel is part of what it holds while blocked"""
+    x, t = extra
+    if inner[0] == "recv":
+        _, a, b, frm, _K = inner
+        return ("recv", a, b, frm, prov(P, u[2], params + [(a, u[1]), (x, t)], fuel))
+    return ("case", "self", [(l, c, prov(P, at, list(params) + [(x, t)], fuel // 2)) for (l, c, _K), (_, at) in zip(inner[2], u[1])])
+
+
+def generate(seed, fuel=6, lin=False, shape="random"):
     rng = random.Random(seed)
     P = Prog(rng, lin)
     names = make_types(P, rng.randint(2, 4))
+    if shape == "dropserver" and not lin:
+        main = drop_server_main(P, names, min(fuel, 3))
+        P.procs = [{"names": ["main"], "T": UNIT, "body": main}]
+        return P
     pool = ["pa", "pb", "pc", "pd", "pe"]
     ntop = rng.randint(1, 4)
     tops = []
